@@ -30,10 +30,10 @@ var kindNames = []string{"bitflip", "swapped", "plus-minus-d", "three-way", "non
 
 func genC03(c *Ctx) {
 	maxExh := 5
-	sampled := []int{8, 9}
+	sampled := []int{8, 9, 65, 129}
 	if c.thorough() {
 		maxExh = 7
-		sampled = []int{8, 9, 15, 16, 17, 33}
+		sampled = []int{8, 9, 15, 16, 17, 33, 64, 65, 129, 257}
 	}
 	h := crypto.NewExpandMsgXOFKMAC128("batch")
 	msg := []byte("batch message")
@@ -248,6 +248,20 @@ func genC03(c *Ctx) {
 	}
 	for _, n := range sampled {
 		reps := 6
+		if n > 40 {
+			// long batches: defects next to the sizes a chunked implementation would use, everything else valid
+			run(n, []int{n - 1}, kBitflip)
+			run(n, []int{63, 64}, kPlusMinusD)
+			if n > 128 {
+				run(n, []int{127, 128}, kSwapped)
+				run(n, []int{0, 64, 128}, kPolyCancel)
+			}
+			run(n, nil, kBitflip)
+			if !c.thorough() {
+				continue
+			}
+			reps = 2
+		}
 		for rep := 0; rep < reps; rep++ {
 			var invalid []int
 			for i := 0; i < n; i++ {
